@@ -56,6 +56,10 @@ def cases(tier):
     cs = [f"ri/{name}" for name in CONFIGS]
     cs += [f"frame/{g}" for g in ("none", "sgd", "ada")]
     cs += ["step/flags/g00n00", "step/flags/g01n01", "step/flags/g10n10", "opaque/distributor", "opaque/mask_state_lists", "wiring/steps-per-group"]
+    # per-block failure counters are part of "block i's own state": the mask/counter representation invariant of C13 (every mask transition
+    # keeps each block's own counter), re-discharged here
+    import itertools
+    cs += [f"mask/{kind}/{''.join(map(str, m))}" for kind in ("shampoo", "eig") for m in itertools.product((0, 1), repeat=3)]
     return cs
 
 
@@ -239,6 +243,9 @@ def _frame_case(case):
 
 
 def run_case(case, tier, seed):
+    if case.startswith("mask/"):
+        from checks import c13
+        return c13._mask_case(case)
     if case == "wiring/steps-per-group":
         from checks import wiring
         return wiring.run_steps_two_groups(case, tier)
@@ -372,6 +379,9 @@ def replay(r):
 
 def replay_file(doc):
     rp = doc.get("replay_input") or {}
+    if rp.get("kind") in ("faults", "mask", "native_fault"):
+        from checks import c13
+        return c13.replay_file(doc)
     if rp.get("kind") == "two_group_steps":
         from checks import wiring
         bad = wiring.native_two_group_steps()
